@@ -22,7 +22,7 @@ from geneticengine.algorithms.gp.operators.elitism import ElitismStep
 from geneticengine.algorithms.gp.operators.initializers import StandardInitializer
 from geneticengine.evaluation.sequential import SequentialEvaluator
 from geneticengine.evaluation.tracker import MultiObjectiveProgressTracker, SingleObjectiveProgressTracker
-from geneticengine.problems import SingleObjectiveProblem
+from geneticengine.problems import MultiObjectiveProblem, SingleObjectiveProblem
 from geneticengine.problems.helpers import sort_population
 from geneticengine.solutions.individual import Individual
 
@@ -43,6 +43,9 @@ ASSUMPTIONS = [
 def build_problem(kind):
     if kind == "multi":
         return sc.make_problem([False])
+    if kind == "multi-min":
+        # a multi-objective problem that happens to have ONE objective, minimised
+        return MultiObjectiveProblem(minimize=[True], fitness_function=lambda p: [p[1]])   # (the library's default aggregate)
     return SingleObjectiveProblem(lambda p: p[1], minimize=(kind == "min"))
 
 
@@ -78,11 +81,12 @@ def elitism_case(h: Harness, values, shape, k, form, kind, tag):
             f"not min(k, len) members of the population, or an excluded individual is strictly better than an included one",
             replay, nontrivial=nontrivial)
     # the aggregate the library sorts by is the value itself, negated under minimisation
-    if kind != "multi":
-        for p, oid in zip(pop, shape):
-            h.holds("SingleObjectiveProblem.evaluate", "wrong-direction", ["prop_direction", kind == "min", values[oid], p[1]],
-                    f"SingleObjectiveProblem(minimize={kind == 'min'}) gave value {values[oid]} the maximising aggregate {p[1]}", replay,
-                    nontrivial=False)
+    minimised = kind in ("min", "multi-min")
+    pname = "MultiObjectiveProblem" if kind.startswith("multi") else "SingleObjectiveProblem"
+    for p, oid in zip(pop, shape):
+        h.holds(f"{pname}.evaluate", "wrong-direction", ["prop_direction", minimised, values[oid], p[1]],
+                f"{pname}(minimize={'[True]' if kind == 'multi-min' else minimised}) gave value {values[oid]} the maximising aggregate {p[1]}: "
+                f"elitism then keeps the {'worst' if minimised else 'best'} individuals", replay, nontrivial=False)
 
 
 def check_elitism(h: Harness):
@@ -91,7 +95,7 @@ def check_elitism(h: Harness):
     for n in range(0, nmax + 1):
         for values in itertools.product(range(3), repeat=n):
             for k in range(0, n + 2):
-                for kind in ("max", "min", "multi"):
+                for kind in ("max", "min", "multi", "multi-min"):
                     for form in FORMS:
                         if n == 5 and form == "population":
                             continue
@@ -104,12 +108,18 @@ def check_elitism(h: Harness):
             if s and rng.random() < 0.15:
                 shape[s] = shape[rng.randrange(s)]
         values = [rng.randint(-4, 4) for _ in range(n)]
-        elitism_case(h, values, shape, rng.randint(0, n + 1), rng.choice(FORMS), rng.choice(["max", "min", "multi"]), "random")
+        elitism_case(h, values, shape, rng.randint(0, n + 1), rng.choice(FORMS), rng.choice(["max", "min", "multi", "multi-min"]), "random")
+    # a few elites out of a LARGE population (the default step keeps 5%), many ties at the cut
+    for _ in range(h.n(80, 800)):
+        n = rng.randint(20, 60)
+        k = rng.randint(2, max(2, n // 10))
+        values = [rng.randint(0, 4) for _ in range(n)]
+        elitism_case(h, values, list(range(n)), k, rng.choice(FORMS), rng.choice(["max", "min", "multi", "multi-min"]), "large")
     # sort_population: stable, best first
     for _ in range(h.n(100, 1000)):
         n = rng.randint(0, 9)
         rep = StubRep(1)
-        kind = rng.choice(["max", "min", "multi"])
+        kind = rng.choice(["max", "min", "multi", "multi-min"])
         problem = build_problem(kind)
         inds = [Individual((i, rng.randint(0, 3), (0,)), rep) for i in range(n)]
         pop = lib_pop(inds, problem)
